@@ -1,6 +1,6 @@
 #include "scenarios.h"
-extern const Scenario scen_c12pool, scen_c11mt, scen_c07mt, scen_c13oom, scen_c02stream, scen_c05conf, scen_c10prog, scen_c09trunc, scen_c07pure, scen_c04decvar, scen_c03fuzz, scen_c15wear, scen_c06cap, scen_c14budget, scen_c08dict, scen_c16params, scen_c17seq, scen_c18train;
+extern const Scenario scen_c12pool, scen_c11mt, scen_c07mt, scen_c13oom, scen_c02stream, scen_c05conf, scen_c10prog, scen_c09trunc, scen_c07pure, scen_c04decvar, scen_c03fuzz, scen_c15wear, scen_c06cap, scen_c14budget, scen_c08dict, scen_c16params, scen_c17seq, scen_c18train, scen_c20seek;
 const Scenario* const g_scenarios[] = {
-    &scen_c12pool, &scen_c11mt, &scen_c07mt, &scen_c13oom, &scen_c02stream, &scen_c05conf, &scen_c10prog, &scen_c09trunc, &scen_c07pure, &scen_c04decvar, &scen_c03fuzz, &scen_c15wear, &scen_c06cap, &scen_c14budget, &scen_c08dict, &scen_c16params, &scen_c17seq, &scen_c18train,
+    &scen_c12pool, &scen_c11mt, &scen_c07mt, &scen_c13oom, &scen_c02stream, &scen_c05conf, &scen_c10prog, &scen_c09trunc, &scen_c07pure, &scen_c04decvar, &scen_c03fuzz, &scen_c15wear, &scen_c06cap, &scen_c14budget, &scen_c08dict, &scen_c16params, &scen_c17seq, &scen_c18train, &scen_c20seek,
     NULL
 };
